@@ -162,7 +162,11 @@ func (p *packetizer) NextFrame() (msg rpcMessage, err error) {
 	r := newFrameReader(p.reader.reader, l, p.log)
 	defer func() {
 		drainErr := r.drain()
-		if drainErr != nil && err == nil {
+		// A failed drain means the stream ended (or broke) inside
+		// this frame. That must win over errors we would otherwise
+		// continue after (e.g. method not found), or the truncation
+		// would later be reported as a clean EOF.
+		if drainErr != nil && shouldContinue(err) {
 			msg = nil
 			err = drainErr
 		}
